@@ -1119,3 +1119,42 @@ fn replay_summary_codepages() {
         println!("OUT witness={}", w);
     }
 }
+
+/// C20: a table can be filled to the number of rows the reader accepts; one more row is refused and the
+/// package still reopens with the table intact
+#[test]
+fn replay_row_limit() {
+    let run = || -> Result<Option<String>, String> {
+        let m = Medium::new();
+        let mut p = Package::create(PackageType::Installer, m.clone()).map_err(|e| e.to_string())?;
+        p.create_table("Big", vec![Column::build("K").primary_key().int32()]).map_err(|e| e.to_string())?;
+        let limit = 65536;
+        p.insert_rows(Insert::into("Big").rows((1..=limit - 1).map(|i| vec![Value::Int(i)]).collect())).map_err(|e| format!("filling the table failed: {}", e))?;
+        p.insert_rows(Insert::into("Big").row(vec![Value::Int(limit)])).map_err(|e| format!("the {}th row is refused: {}", limit, e))?;
+        let one_more = p.insert_rows(Insert::into("Big").row(vec![Value::Int(limit + 1)]));
+        let two_more = p.insert_rows(Insert::into("Big").rows(vec![vec![Value::Int(limit + 2)], vec![Value::Int(limit + 3)]]));
+        p.into_inner().map_err(|e| e.to_string())?;
+        let mut q = match Package::open(Cursor::new(m.snapshot())) {
+            Ok(q) => q,
+            Err(e) => return Ok(Some(format!("after inserting beyond {} rows (results {:?}, {:?}) the package does not reopen: {}", limit, one_more.is_ok(), two_more.is_ok(), e))),
+        };
+        match q.select_rows(Select::table("Big")) {
+            Ok(rows) => {
+                let n = rows.count();
+                if n != limit as usize || one_more.is_ok() || two_more.is_ok() {
+                    return Ok(Some(format!("inserting beyond {} rows returned {:?} / {:?}; the reopened table has {} rows", limit, one_more.is_ok(), two_more.is_ok(), n)));
+                }
+            }
+            Err(e) => return Ok(Some(format!("inserting beyond {} rows returned {:?} / {:?}; the saved table is then refused by the reader: {}", limit, one_more.is_ok(), two_more.is_ok(), e))),
+        }
+        Ok(None)
+    };
+    let w = match run() {
+        Ok(w) => w,
+        Err(e) => Some(e),
+    };
+    println!("OUT differs={}", if w.is_some() { 1 } else { 0 });
+    if let Some(w) = w {
+        println!("OUT witness={}", w);
+    }
+}
